@@ -1,118 +1,854 @@
-"""Fail-closed `ast` translator for C03: turns the bodies of the functions that touch PROGRAM OBJECTS while tracing
-(monkeytype/typing.py get_type, get_dict_type; monkeytype/tracing.py get_func, get_func_in_mro, _has_code,
-handle_call, handle_return) into lists of primitive operations on those objects, written to
-coq/Gen/EffectsConstants.v.  Model/Effects.v classifies each primitive as hook-free or hook-invoking; the theorems of
-Props/C03.v are statements about these regenerated lists.
+"""Fail-closed `ast` translator for C03: which primitive operations the tracer applies to PROGRAM OBJECTS while it
+collects a trace - type collection (monkeytype/typing.py: get_type and what it calls), function lookup
+(monkeytype/tracing.py: get_func and what it calls) and the two event handlers (CallTracer.handle_call /
+handle_return) - written to coq/Gen/EffectsConstants.v.  Model/Effects.v classifies each primitive as hook-free or
+hook-invoking; the theorems of Props/C03.v are statements about these regenerated lists.
 
-A primitive is a string:  <callee>[@<guard>]   for every call expression, and  iter(<name>)[@<guard>]  for every
-`for`/comprehension that iterates a program object.  <guard> is the exact-builtin-type test the operation sits under
-(`typ is list` ...), which is what makes container-protocol calls hook-free."""
+The description of a primitive depends neither on the NAME of a local, nor on the function a statement happens to
+live in, nor on the order of the statements, so that behaviour-preserving refactorings (renamed / annotated locals,
+walrus, early returns, a private helper for a few statements, a comprehension for a loop, code motion) regenerate the
+same file, while every change of WHAT is applied to WHICH object changes it (or aborts the extraction).
+
+A primitive is a tuple of five strings  (op, on, arg, guard, gon):
+  op     what is applied:  a statically resolved callee `builtin:type`, `import:inspect.getattr_static`,
+         `import:typing.cast`, `func:shrink_types`, `class:CallTrace`, `global:x` | `.m` (call of the attribute m of
+         `on`) | `()` (call of `on` itself) | `iter` (a for loop / comprehension / yield from iterating `on`)
+  on     the ORIGIN of the object it is applied to (first positional argument of a static callee; receiver of a
+         method; the iterated object), "" when there is none.  Origins are resolved by reaching definitions over the
+         normal form of harness/ast_canon.py and through the calls of helper functions (arguments to parameters,
+         return / yield values to call results):
+             param:<p>  parameter of a ROOT function        self       receiver of a root method
+             builtin:/import:/func:/class:/global:<x>       statically resolved names
+             const:<repr>   new:<list|dict|set|tuple>   computed (result of an operator)
+             O.<attr>   O[]   O[:]                          attribute / item / slice of O
+             call(O)                                        result of calling O (O = static callee, or receiver.m)
+             elem(O)   gen(O)                               element yielded by iterating O; a generator yielding O
+             <loop>.<...>                                   value carried around a loop (x = x.f_back)
+         An operation whose object has several possible origins is listed once per origin.
+  arg    for getattr / hasattr / setattr / delattr / isinstance: the constant attribute name or the statically
+         resolved class (tuple) given as second argument, else ""
+  guard  the exact-builtin-type test the operation sits under: `list` for code only reached when
+         `type(G) is list` (also inherited by a helper from its call site), and  gon = the origin of that G.
+The lists are emitted sorted and without duplicates: every theorem over them is a `forallb` / `filter`-equals-a-sorted-
+list statement, insensitive to order and multiplicity.
+
+Which functions are walked THROUGH (their calls are not primitives, their bodies are visited with the parameters bound
+to the arguments of each call): private functions / methods of the same module (the conditions of ast_canon [A1,A4])
+and the fixed public helpers in TRANSPARENT, provided nothing else in the package refers to them.  Everything that
+cannot be resolved raises ExtractError (nothing is written)."""
 import ast
 import os
 
-from harness import common
-from harness.extract_constants import ExtractError, _parse, _find_func, _cs
+from harness import ast_canon, common
+from harness.extract_constants import ExtractError, _parse, _find_func, _find_class, _cs
 
-BUILTIN_EXACT = {"list", "set", "dict", "defaultdict", "tuple"}
-
-
-def _guard_of(test):
-    """`typ is list`  ->  'list'"""
-    if isinstance(test, ast.Compare) and len(test.ops) == 1 and isinstance(test.ops[0], ast.Is) \
-            and isinstance(test.left, ast.Name) and test.left.id == "typ" and isinstance(test.comparators[0], ast.Name) \
-            and test.comparators[0].id in BUILTIN_EXACT:
-        return test.comparators[0].id
-    return None
+BUILTIN_EXACT = {"builtin:list": "list", "builtin:set": "set", "builtin:dict": "dict", "builtin:tuple": "tuple",
+                 "import:collections.defaultdict": "defaultdict"}
+# public functions that are steps of one of the roots (walked through like private helpers)
+TRANSPARENT = {"get_dict_type", "get_func_in_mro", "get_previous_frames", "get_locals_from_previous_frames"}
+ARG_OPS = {"builtin:getattr", "builtin:hasattr", "builtin:setattr", "builtin:delattr", "builtin:isinstance"}
+LOOP = "<loop>"
 
 
-def _callee(node):
-    f = node.func
-    try:
-        return ast.unparse(f)
-    except Exception:
-        raise ExtractError("callee")
+def _universe():
+    out = {}
+    for d, _dirs, files in sorted(os.walk(os.path.join(common.REPO, "monkeytype"))):
+        for f in sorted(files):
+            if f.endswith(".py"):
+                rel = os.path.relpath(os.path.join(d, f), common.REPO)
+                out[rel] = _parse(rel)
+    return out
 
 
-class Prims(ast.NodeVisitor):
-    def __init__(self, objnames, default_guard=None):
-        self.objnames = set(objnames)
-        self.out = []
-        self.guard = default_guard
+class _Def:
+    """One definition of a local name."""
+    __slots__ = ("kind", "unit", "name", "expr", "pos")
 
-    def tag(self, s):
-        return s + ("@" + self.guard if self.guard else "")
-
-    def visit_If(self, node):
-        g = _guard_of(node.test)
-        self.visit(node.test)
-        old = self.guard
-        if g:
-            self.guard = g
-        for st in node.body:
-            self.visit(st)
-        self.guard = old
-        for st in node.orelse:
-            self.visit(st)
-
-    def visit_Call(self, node):
-        self.out.append(self.tag(_callee(node)))
-        self.generic_visit(node)
-
-    def _iter(self, it):
-        if isinstance(it, ast.Name) and it.id in self.objnames:
-            self.out.append(self.tag(f"iter({it.id})"))
-
-    def visit_For(self, node):
-        self._iter(node.iter)
-        self.generic_visit(node)
-
-    def visit_comprehension(self, node):
-        self._iter(node.iter)
-        self.generic_visit(node)
-
-    def visit_FunctionDef(self, node):      # do not descend into nested defs other than the one we were given
-        for st in node.body:
-            self.visit(st)
+    def __init__(self, kind, unit, name, expr=None, pos=None):
+        self.kind, self.unit, self.name, self.expr, self.pos = kind, unit, name, expr, pos
 
 
-def prims_of(tree, name, objnames, default_guard=None):
-    fn = _find_func(tree, name)
-    p = Prims(objnames, default_guard)
-    p.visit_FunctionDef(fn)
-    return p.out
+def Def(kind, unit, name, expr=None, pos=None):
+    """the same definition site is the same object (the loop fixpoints compare sets of definitions)"""
+    key = (kind, name if expr is None else None, id(expr) if expr is not None else None, pos)
+    if key not in unit.defs:
+        unit.defs[key] = _Def(kind, unit, name, expr, pos)
+    return unit.defs[key]
+
+
+class Unit:
+    """One function in normal form, with reaching definitions for every name it loads."""
+
+    def __init__(self, mod, fn, cls, is_root):
+        self.mod, self.cls, self.is_root = mod, cls, is_root
+        self.name = fn.name
+        try:
+            canon, _cx = ast_canon.canonical_function(mod.info, fn, cls, ())
+            # unparse / parse: every node of the tree is a distinct object (the canonicaliser may share sub-trees)
+            self.fn = ast.parse(ast.unparse(canon)).body[0]
+        except Exception as e:      # the canonicaliser is total on valid Python; anything else fails closed
+            raise ExtractError(f"canonicaliser failed on {fn.name}: {type(e).__name__}: {e}")
+        if not isinstance(self.fn, ast.FunctionDef) or self.fn.decorator_list:
+            raise ExtractError(f"{fn.name}: not a plain function")
+        self.fi = ast_canon.FuncInfo(self.fn)
+        self.cx = ast_canon.Ctx(mod.info, self.fi, cls)
+        a = self.fn.args
+        if a.vararg or a.kwarg:
+            raise ExtractError(f"{fn.name}: *args / **kwargs")
+        self.params = list(self.fi.params)
+        self.defs = {}
+        self.use = {}           # id(Name load node) -> frozenset of Def  (None: not a local)
+        self.returns, self.yields = [], []
+        self.falls_off = False
+        self._breaks, self._conts = [], []
+        env = {p: frozenset([Def("param", self, p)]) for p in self.params}
+        out = self._block(self.fn.body, env)
+        if out is not None:
+            self.falls_off = True
+        self.is_gen = bool(self.yields)
+
+    # ---- reaching definitions over the structured statements -------------------------------------------------
+    @staticmethod
+    def _join(*envs):
+        envs = [e for e in envs if e is not None]
+        if not envs:
+            return None
+        out = {}
+        for e in envs:
+            for k, v in e.items():
+                out[k] = out.get(k, frozenset()) | v
+        return out
+
+    def _bind(self, target, env, mk, weak=False):
+        """mk(pos) -> Def for the name at position pos (None: the whole value)"""
+        def put(name, d):
+            if not self.fi.is_local(name):
+                raise ExtractError(f"{self.name}: store to the non-local {name}")
+            env[name] = (env.get(name, frozenset()) if weak else frozenset()) | frozenset([d])
+        if isinstance(target, ast.Name):
+            put(target.id, mk(None))
+        elif isinstance(target, (ast.Tuple, ast.List)):
+            for i, t in enumerate(target.elts):
+                if isinstance(t, ast.Name):
+                    put(t.id, mk(i))
+                else:
+                    raise ExtractError(f"{self.name}: nested / starred assignment target")
+        elif isinstance(target, (ast.Attribute, ast.Subscript)):
+            self._expr(target.value, env)
+            if isinstance(target, ast.Subscript):
+                self._expr(target.slice, env)
+        else:
+            raise ExtractError(f"{self.name}: assignment target {type(target).__name__}")
+
+    def _expr(self, e, env, cond=False, in_comp=False):
+        """records the reaching definitions of every name loaded in `e` (evaluation order), applies walrus bindings"""
+        if e is None:
+            return
+        if isinstance(e, ast.Name):
+            if isinstance(e.ctx, ast.Load):
+                self.use[id(e)] = env.get(e.id) if self.fi.is_local(e.id) or e.id in env else None
+                if self.fi.is_local(e.id) and e.id not in env:
+                    self.use[id(e)] = frozenset()       # a local that is not bound on any path to this use
+            return
+        if isinstance(e, (ast.Lambda, ast.Await, ast.Starred)):
+            raise ExtractError(f"{self.name}: {type(e).__name__} expression")
+        if isinstance(e, ast.NamedExpr):
+            if in_comp:
+                raise ExtractError(f"{self.name}: walrus inside a comprehension")
+            self._expr(e.value, env, cond)
+            self._bind(e.target, env, lambda pos, v=e.value: Def("assign", self, e.target.id, v), weak=cond)
+            return
+        if isinstance(e, (ast.Yield, ast.YieldFrom)):
+            self._expr(e.value, env, cond)
+            self.yields.append(("from" if isinstance(e, ast.YieldFrom) else "val", e.value))
+            return
+        if isinstance(e, ast_canon._COMPS):
+            inner = dict(env)
+            for g in e.generators:
+                if g.is_async:
+                    raise ExtractError(f"{self.name}: async comprehension")
+                self._expr(g.iter, inner, cond, in_comp or g is not e.generators[0])
+                self._bind_comp(g.target, inner, g.iter)
+                for c in g.ifs:
+                    self._expr(c, inner, True, True)
+            for field in ("key", "value", "elt"):
+                if hasattr(e, field):
+                    self._expr(getattr(e, field), inner, True, True)
+            return
+        if isinstance(e, ast.BoolOp):
+            for i, v in enumerate(e.values):
+                self._expr(v, env, cond or i > 0, in_comp)
+            return
+        if isinstance(e, ast.IfExp):
+            self._expr(e.test, env, cond, in_comp)
+            self._expr(e.body, env, True, in_comp)
+            self._expr(e.orelse, env, True, in_comp)
+            return
+        if isinstance(e, ast.Compare):
+            self._expr(e.left, env, cond, in_comp)
+            for i, c in enumerate(e.comparators):
+                self._expr(c, env, cond or i > 0, in_comp)
+            return
+        for c in ast.iter_child_nodes(e):
+            if isinstance(c, ast.expr):
+                self._expr(c, env, cond, in_comp)
+            elif isinstance(c, ast.keyword):
+                self._expr(c.value, env, cond, in_comp)
+            elif isinstance(c, ast.comprehension):
+                raise ExtractError("comprehension outside a comprehension expression")
+
+    def _bind_comp(self, target, env, it):
+        def put(name, d):
+            env[name] = frozenset([d])      # a comprehension variable lives in the comprehension's own scope
+        if isinstance(target, ast.Name):
+            put(target.id, Def("elem", self, target.id, it, None))
+        elif isinstance(target, (ast.Tuple, ast.List)) and all(isinstance(t, ast.Name) for t in target.elts):
+            for i, t in enumerate(target.elts):
+                put(t.id, Def("elem", self, t.id, it, i))
+        else:
+            raise ExtractError(f"{self.name}: comprehension target")
+
+    def _block(self, stmts, env):
+        for s in stmts:
+            if env is None:
+                raise ExtractError(f"{self.name}: unreachable statement")
+            env = self._stmt(s, env)
+        return env
+
+    def _stmt(self, s, env):
+        env = dict(env)
+        if isinstance(s, ast.Assign):
+            self._expr(s.value, env)
+            for t in s.targets:
+                if isinstance(t, (ast.Tuple, ast.List)):
+                    self._bind(t, env, lambda pos, v=s.value: Def("item", self, None, v, pos))
+                else:
+                    self._bind(t, env, lambda pos, v=s.value: Def("assign", self, None, v))
+            return env
+        if isinstance(s, ast.AnnAssign):
+            if s.value is not None:
+                self._expr(s.value, env)
+                self._bind(s.target, env, lambda pos, v=s.value: Def("assign", self, None, v))
+            return env
+        if isinstance(s, ast.AugAssign):
+            self._expr(s.value, env)
+            if isinstance(s.target, ast.Name):
+                self._expr(ast.Name(id=s.target.id, ctx=ast.Load()), env)
+                self._bind(s.target, env, lambda pos: Def("computed", self, None))
+            else:
+                self._bind(s.target, env, None)
+            return env
+        if isinstance(s, ast.Expr):
+            self._expr(s.value, env)
+            return env
+        if isinstance(s, ast.Return):
+            self._expr(s.value, env)
+            self.returns.append(s.value)
+            return None
+        if isinstance(s, ast.Raise):
+            self._expr(s.exc, env)
+            self._expr(s.cause, env)
+            return None
+        if isinstance(s, ast.Assert):
+            self._expr(s.test, env)
+            self._expr(s.msg, env, True)
+            return env
+        if isinstance(s, ast.Pass):
+            return env
+        if isinstance(s, ast.Delete):
+            for t in s.targets:
+                if isinstance(t, ast.Name):
+                    raise ExtractError(f"{self.name}: del of a local")
+                self._bind(t, env, None)
+            return env
+        if isinstance(s, ast.Break):
+            self._breaks[-1].append(env)
+            return None
+        if isinstance(s, ast.Continue):
+            self._conts[-1].append(env)
+            return None
+        if isinstance(s, ast.If):
+            self._expr(s.test, env)
+            a = self._block(s.body, dict(env))
+            b = self._block(s.orelse, dict(env))
+            return self._join(a, b)
+        if isinstance(s, (ast.For, ast.While)):
+            if isinstance(s, ast.For):
+                self._expr(s.iter, env)
+            head = env
+            for _ in range(50):
+                e = dict(head)
+                if isinstance(s, ast.While):
+                    self._expr(s.test, e)
+                    after_test = dict(e)
+                else:
+                    after_test = dict(e)
+                    self._bind(s.target, e, lambda pos, it=s.iter: Def("elem", self, None, it, pos))
+                self._breaks.append([])
+                self._conts.append([])
+                out = self._block(s.body, e)
+                brk, cnt = self._breaks.pop(), self._conts.pop()
+                new_head = self._join(head, out, *cnt)
+                if new_head == head:
+                    break
+                head = new_head
+            else:
+                raise ExtractError(f"{self.name}: no fixpoint for a loop")
+            done = self._block(s.orelse, after_test) if s.orelse else after_test
+            if isinstance(s, ast.While) and isinstance(s.test, ast.Constant) and s.test.value:
+                done = None
+            return self._join(done, *brk)
+        if isinstance(s, ast.Try):
+            body_out = self._block(s.body, dict(env))
+            # a handler may start after any prefix of the body: every definition made in the body may or may not
+            # have happened
+            gen = self._join(env, body_out, *self._defs_in(s.body, env))
+            outs = []
+            for h in s.handlers:
+                e = dict(gen)
+                self._expr(h.type, e)
+                if h.name:
+                    e[h.name] = frozenset([Def("bad", self, h.name, None, "exception object")])
+                outs.append(self._block(h.body, e))
+            els = self._block(s.orelse, body_out) if (s.orelse and body_out is not None) else body_out
+            res = self._join(els, *outs)
+            if s.finalbody:
+                res2 = self._block(s.finalbody, self._join(res, gen))
+                return None if res is None else res2
+            return res
+        if isinstance(s, ast.With):
+            for it in s.items:
+                self._expr(it.context_expr, env)
+                if it.optional_vars is not None:
+                    self._bind(it.optional_vars, env, lambda pos: Def("bad", self, None, None, "with target"))
+            return self._block(s.body, env)
+        if isinstance(s, (ast.Import, ast.ImportFrom)):
+            for al in s.names:
+                nm = al.asname or al.name.split(".")[0]
+                env[nm] = frozenset([Def("bad", self, nm, None, "import inside a function")])
+            return env
+        raise ExtractError(f"{self.name}: statement {type(s).__name__}")
+
+    def _defs_in(self, stmts, env):
+        """environments in which every name assigned somewhere in `stmts` has (also) that definition"""
+        sub = Unit.__new__(Unit)
+        sub.__dict__.update(self.__dict__)
+        sub.use, sub.returns, sub.yields, sub._breaks, sub._conts = {}, [], [], [[]], [[]]
+        outs = []
+        e = dict(env)
+        for s in stmts:
+            e2 = sub._stmt(s, e)
+            if e2 is None:
+                break
+            outs.append(e2)
+            e = e2
+        return outs
+
+
+class Module:
+    def __init__(self, rel, universe):
+        self.rel = rel
+        self.tree = universe[rel]
+        self.universe = universe
+        self.info = ast_canon.ModuleInfo(self.tree, list(universe.values()))
+        self.imports = {}       # name -> "import:<dotted>"   (single module-level bindings only)
+        self.modules = {}       # name bound by `import x[.y] [as n]` -> dotted module name
+        for st in self.tree.body:
+            if isinstance(st, ast.Import):
+                for a in st.names:
+                    nm = a.asname or a.name.split(".")[0]
+                    if nm in self.info.single:
+                        self.modules[nm] = a.name if a.asname else a.name.split(".")[0]
+            elif isinstance(st, ast.ImportFrom) and st.level == 0 and st.module:
+                for a in st.names:
+                    nm = a.asname or a.name
+                    if nm in self.info.single and a.name != "*":
+                        self.imports[nm] = f"import:{st.module}.{a.name}"
+        # names of this module that other modules of the package refer to
+        self.external = set()
+        for r, t in universe.items():
+            if r == rel:
+                continue
+            for n in ast.walk(t):
+                if isinstance(n, ast.Name):
+                    self.external.add(n.id)
+                elif isinstance(n, ast.Attribute):
+                    self.external.add(n.attr)
+                elif isinstance(n, ast.alias):
+                    self.external.add(n.name.split(".")[-1])
+                    if n.name == "*":
+                        self.external.add(None)
+
+    def static(self, unit, node):
+        """statically resolved name / dotted name -> origin string, else None"""
+        if isinstance(node, ast.Name):
+            nm = node.id
+            if unit.use.get(id(node)) is not None or unit.fi.is_local(nm):
+                return None
+            if nm in self.info.bound:
+                if nm not in self.info.single:
+                    raise ExtractError(f"{nm}: bound more than once at module level")
+                if nm in self.info.funcs:
+                    return f"func:{nm}"
+                if nm in self.info.classes:
+                    return f"class:{nm}"
+                if nm in self.imports:
+                    return self.imports[nm]
+                if nm in self.modules:
+                    return f"import:{self.modules[nm]}"
+                return f"global:{nm}"
+            if self.info.is_builtin(nm):
+                return f"builtin:{nm}"
+            raise ExtractError(f"{unit.name}: unknown global {nm}")
+        if isinstance(node, ast.Attribute):
+            d = ast_canon.dotted(node)
+            if d and not unit.fi.is_local(d[0]) and d[0] in self.modules and d[0] in self.info.single:
+                return "import:" + ".".join([self.modules[d[0]]] + d[1:])
+        return None
+
+
+class Analysis:
+    """The closure of helper functions below a set of roots of one module, and the primitives applied in it."""
+
+    def __init__(self, mod, roots):
+        self.mod = mod
+        self.roots = {}
+        self.units = {}
+        for cls_name, fn_name in roots:
+            cls = _find_class(mod.tree, cls_name) if cls_name else None
+            if cls_name and cls_name not in mod.info.classes:
+                raise ExtractError(f"class {cls_name} is not a single module-level definition")
+            if cls_name is None and fn_name not in mod.info.funcs:
+                raise ExtractError(f"function {fn_name} is not a single module-level definition")
+            fn = _find_func(None, fn_name, cls) if cls else mod.info.funcs[fn_name]
+            if cls and [m for m in cls.body if getattr(m, "name", None) == fn_name] != [fn]:
+                raise ExtractError(f"{cls_name}.{fn_name}: not exactly one method of that name in the class body")
+            self.roots[(cls_name, fn_name)] = self.unit(fn, cls, True)
+        self.sites = {}         # unit -> [(caller unit, call node, receiver expr or None)]
+        self.prims = set()
+        self._progress = []
+        self._done = set()
+        for u in self.roots.values():
+            self._collect_sites(u, set())
+        for u in self.roots.values():
+            self._visit(u, ("", "", None))
+
+    def unit(self, fn, cls, is_root=False):
+        k = (cls.name if cls is not None else None, fn.name)
+        if k not in self.units:
+            self.units[k] = Unit(self.mod, fn, cls, is_root)
+        return self.units[k]
+
+    # ---- which calls are walked through -------------------------------------------------------------------------
+    def callee_unit(self, unit, call):
+        """-> (Unit, receiver or None) when `call` is a call of a transparent helper, else None"""
+        f = call.func
+        info = self.mod.info
+        if None in info.attr_stores:
+            return None
+        if isinstance(f, ast.Name):
+            if self.mod.static(unit, f) != f"func:{f.id}":
+                return None
+            fn = info.funcs[f.id]
+            if (None, f.id) in self.roots or not (ast_canon._private(f.id) or f.id in TRANSPARENT) \
+                    or not ast_canon._plain_method(fn) or f.id in info.attr_stores:
+                return None
+            if not ast_canon._private(f.id) and (f.id in self.mod.external or None in self.mod.external):
+                return None         # a public helper that other modules use as well: its call stays a primitive
+            return self.unit(fn, None), None
+        if isinstance(f, ast.Attribute) and isinstance(f.value, ast.Name):
+            r = ast_canon._resolve(unit.cx, call, set())      # [A4]
+            if r is None or r[2] is None:
+                return None
+            fn, recv, cls = r
+            if (cls.name, fn.name) in self.roots:
+                return None
+            orig = [m for m in cls.body if isinstance(m, ast.FunctionDef) and m.name == fn.name]
+            return self.unit(orig[0], cls), recv
+        return None
+
+    def _calls(self, unit):
+        for n in ast_canon.walk_block(unit.fn.body):
+            if isinstance(n, (ast.FunctionDef, ast.AsyncFunctionDef, ast.ClassDef, ast.Lambda)):
+                raise ExtractError(f"{unit.name}: nested scope")
+            if isinstance(n, (ast.Global, ast.Nonlocal)):
+                raise ExtractError(f"{unit.name}: global / nonlocal")
+            if isinstance(n, ast.Call):
+                yield n
+
+    def _collect_sites(self, unit, seen):
+        if id(unit) in seen:
+            return
+        seen.add(id(unit))
+        for call in self._calls(unit):
+            r = self.callee_unit(unit, call)
+            if r is not None:
+                u, recv = r
+                binds = ast_canon._bind_args(u.fn, call, recv)
+                if binds is None:
+                    raise ExtractError(f"{unit.name}: cannot bind the arguments of {u.name}")
+                self.sites.setdefault(id(u), []).append((unit, dict(binds)))
+                self._collect_sites(u, seen)
+
+    # ---- origins -------------------------------------------------------------------------------------------------
+    def origin(self, unit, e):
+        """-> sorted tuple of origin strings of expression `e` evaluated in `unit`"""
+        out = self._origin(unit, e)
+        if not out:
+            raise ExtractError(f"{unit.name}: no origin for {ast.unparse(e)}")
+        return tuple(sorted(out))
+
+    def _origin(self, unit, e):
+        st = self.mod.static(unit, e)
+        if st is not None:
+            return {st}
+        if isinstance(e, ast.Constant):
+            return {f"const:{e.value!r}"}
+        if isinstance(e, ast.Name):
+            defs = unit.use.get(id(e))
+            if defs is None:
+                raise ExtractError(f"{unit.name}: name {e.id} not resolved")
+            if not defs:
+                raise ExtractError(f"{unit.name}: local {e.id} is not bound where it is used")
+            out = set()
+            for d in sorted(defs, key=lambda d: (d.kind, str(d.pos), ast.dump(d.expr) if d.expr is not None else "")):
+                out |= self._def_origin(d)
+            return out
+        if isinstance(e, ast.Attribute):
+            return {f"{o}.{e.attr}" for o in self._origin(unit, e.value)}
+        if isinstance(e, ast.Subscript):
+            sfx = "[:]" if isinstance(e.slice, ast.Slice) else "[]"
+            return {o + sfx for o in self._origin(unit, e.value)}
+        if isinstance(e, ast.NamedExpr):
+            return self._origin(unit, e.value)
+        if isinstance(e, ast.IfExp):
+            return self._origin(unit, e.body) | self._origin(unit, e.orelse)
+        if isinstance(e, ast.BoolOp):
+            out = set()
+            for v in e.values:
+                out |= self._origin(unit, v)
+            return out
+        if isinstance(e, (ast.BinOp, ast.UnaryOp, ast.Compare, ast.JoinedStr)):
+            return {"computed"}
+        if isinstance(e, (ast.List, ast.ListComp)):
+            return {"new:list"}
+        if isinstance(e, (ast.Dict, ast.DictComp)):
+            return {"new:dict"}
+        if isinstance(e, (ast.Set, ast.SetComp)):
+            return {"new:set"}
+        if isinstance(e, ast.Tuple):
+            return {"new:tuple"}
+        if isinstance(e, ast.GeneratorExp):
+            return {f"gen({o})" for o in self._origin(unit, e.elt)}
+        if isinstance(e, ast.Call):
+            r = self.callee_unit(unit, e)
+            if r is not None:
+                return self._result(r[0])
+            st = self.mod.static(unit, e.func)
+            if st is not None:
+                return {f"call({st})"}
+            if isinstance(e.func, ast.Attribute):
+                return {f"call({o}.{e.func.attr})" for o in self._origin(unit, e.func.value)}
+            return {f"call({o})" for o in self._origin(unit, e.func)}
+        raise ExtractError(f"{unit.name}: origin of a {type(e).__name__} expression")
+
+    @staticmethod
+    def _elem(o):
+        return o[4:-1] if o.startswith("gen(") and o.endswith(")") else f"elem({o})"
+
+    def _guarded(self, key, compute):
+        if key in self._progress:
+            return {LOOP}
+        self._progress.append(key)
+        try:
+            return compute()
+        finally:
+            self._progress.pop()
+
+    def _def_origin(self, d):
+        u = d.unit
+        if d.kind == "bad":
+            raise ExtractError(f"{u.name}: origin of a name bound by {d.pos}")
+        if d.kind == "computed":
+            return {"computed"}
+        if d.kind == "param":
+            if u.is_root:
+                if u.cls is not None and u.params and d.name == u.params[0]:
+                    return {"self"}
+                return {f"param:{d.name}"}
+
+            def go():
+                out = set()
+                for caller, binds in self.sites.get(id(u), []):
+                    if d.name not in binds:
+                        raise ExtractError(f"{u.name}: parameter {d.name} not bound at a call site")
+                    out |= self._origin(caller, binds[d.name])
+                if not out:
+                    raise ExtractError(f"{u.name}: helper without a call site")
+                return out
+            return self._guarded(("param", id(u), d.name), go)
+        if d.kind == "assign":
+            return self._guarded(("def", id(d.expr)), lambda: self._origin(u, d.expr))
+        if d.kind == "item":
+            return self._guarded(("item", id(d.expr), d.pos), lambda: {f"{o}[]" for o in self._origin(u, d.expr)})
+        if d.kind == "elem":
+            def go():
+                out = {self._elem(o) for o in self._origin(u, d.expr)}
+                return out if d.pos is None else {f"{o}[]" for o in out}
+            return self._guarded(("elem", id(d.expr), d.pos), go)
+        raise ExtractError(f"definition kind {d.kind}")
+
+    def _result(self, u):
+        def go():
+            out = set()
+            if u.is_gen:
+                for kind, v in u.yields:
+                    if v is None:
+                        out.add("gen(const:None)")
+                    elif kind == "val":
+                        out |= {f"gen({o})" for o in self._origin(u, v)}
+                    else:
+                        out |= {f"gen({self._elem(o)})" for o in self._origin(u, v)}
+                return out
+            for v in u.returns:
+                out |= {"const:None"} if v is None else self._origin(u, v)
+            if u.falls_off:
+                out.add("const:None")
+            return out
+        return self._guarded(("result", id(u)), go)
+
+    # ---- guards ----------------------------------------------------------------------------------------------------
+    def _type_args(self, unit, e, depth=0):
+        """[(unit, X)] when `e` is (a local only ever bound to) `type(X)`, else None"""
+        if depth > 8:
+            return None
+        if isinstance(e, ast.NamedExpr):
+            return self._type_args(unit, e.value, depth + 1)
+        if isinstance(e, ast.Call):
+            if self.mod.static(unit, e.func) == "builtin:type" and len(e.args) == 1 and not e.keywords \
+                    and not isinstance(e.args[0], ast.Starred):
+                return [(unit, e.args[0])]
+            return None
+        if isinstance(e, ast.Name):
+            defs = unit.use.get(id(e))
+            if not defs:
+                return None
+            out = []
+            for d in defs:
+                if d.kind == "assign":
+                    r = self._type_args(d.unit, d.expr, depth + 1)
+                elif d.kind == "param" and not d.unit.is_root:
+                    r = []
+                    for caller, binds in self.sites.get(id(d.unit), []):
+                        x = self._type_args(caller, binds[d.name], depth + 1) if d.name in binds else None
+                        if x is None:
+                            return None
+                        r += x
+                    r = r or None
+                else:
+                    r = None
+                if r is None:
+                    return None
+                out += r
+            return out
+        return None
+
+    @staticmethod
+    def _alias_root(unit, e):
+        """follows `a = b` definitions of a local: the name whose value `e` is"""
+        for _ in range(20):
+            if not isinstance(e, ast.Name):
+                break
+            defs = unit.use.get(id(e))
+            if not defs or len(defs) != 1:
+                break
+            d = next(iter(defs))
+            if d.kind == "assign" and isinstance(d.expr, ast.Name) and d.unit is unit:
+                e = d.expr
+            else:
+                break
+        return e
+
+    def _same(self, unit, e, guard):
+        """is `e` the very object the guard was established for?  (the same definitions reach both names: no
+        assignment to the name lies between the test and this use)"""
+        if guard[2] is None:
+            return False
+        e = self._alias_root(unit, e)
+        return isinstance(e, ast.Name) and unit.use.get(id(e)) == guard[2][1] and unit is guard[2][0]
+
+    def guard_of(self, unit, test):
+        """`T is list` / `T is not list` with T = type(G)  ->  (("list", origin of G, definitions of G), positive?)"""
+        if isinstance(test, ast.Compare) and len(test.ops) == 1 and isinstance(test.ops[0], (ast.Is, ast.IsNot)):
+            for a, b in ((test.left, test.comparators[0]), (test.comparators[0], test.left)):
+                st = self.mod.static(unit, b)
+                if st in BUILTIN_EXACT:
+                    args = self._type_args(unit, a)
+                    if args:
+                        gon = set()
+                        for u, x in args:
+                            gon |= set(self.origin(u, x))
+                        roots = [self._alias_root(u, x) for u, x in args]
+                        ident = None
+                        if all(u is unit for u, _x in args) and all(isinstance(r, ast.Name) for r in roots):
+                            ds = {unit.use.get(id(r)) for r in roots}
+                            if len(ds) == 1 and None not in ds and frozenset() not in ds:
+                                ident = (unit, ds.pop())
+                        return (BUILTIN_EXACT[st], "|".join(sorted(gon)), ident), isinstance(test.ops[0], ast.Is)
+        return None
+
+    # ---- primitives ------------------------------------------------------------------------------------------------
+    def _static_arg(self, unit, e):
+        if isinstance(e, ast.Constant) and isinstance(e.value, str):
+            return repr(e.value)
+        st = self.mod.static(unit, e)
+        if st is not None and st.split(":")[0] in ("builtin", "import", "class"):
+            return st
+        if isinstance(e, ast.Tuple) and e.elts:
+            parts = [self._static_arg(unit, x) for x in e.elts]
+            if all(parts):
+                return "(" + ",".join(parts) + ")"
+        return ""
+
+    def _emit(self, op, ons, arg, guard, unit=None, target=None):
+        """target: the expression whose origins are `ons`.  Model/Effects.v takes `on = gon` (and on = call(gon.m)) to
+        mean that the operation is applied to the GUARDED object: that identity is established here, or the
+        extraction fails."""
+        for on in ons:
+            if guard[0] and on == guard[1]:
+                if target is None or not self._same(unit, target, guard):
+                    raise ExtractError(f"under `type(G) is {guard[0]}`: {op} on an object with G's origin {on} "
+                                       "that is not known to be G")
+            elif guard[0] and on.startswith("call(" + guard[1] + "."):
+                if not (isinstance(target, ast.Call) and isinstance(target.func, ast.Attribute)
+                        and self._same(unit, target.func.value, guard)):
+                    raise ExtractError(f"under `type(G) is {guard[0]}`: {op} on {on}, not known to be a method of G")
+            self.prims.add((op, on, arg, guard[0], guard[1]))
+
+    def _visit(self, unit, guard):
+        key = (id(unit), guard)
+        if key in self._done:
+            return
+        self._done.add(key)
+        for s in unit.fn.body:
+            self._walk(unit, s, guard)
+
+    def _truth(self, unit, e, guard):
+        """`e` is used as a truth value: bool(e) runs __bool__ / __len__ of the object unless it is a builtin"""
+        if isinstance(e, ast.BoolOp):
+            cur = guard
+            for v in e.values:
+                self._truth(unit, v, cur)
+                g = self.guard_of(unit, v)
+                if g and g[1] and isinstance(e.op, ast.And):
+                    cur = g[0]
+        elif isinstance(e, ast.UnaryOp) and isinstance(e.op, ast.Not):
+            self._truth(unit, e.operand, guard)
+        elif isinstance(e, ast.NamedExpr):
+            self._truth(unit, e.value, guard)
+        elif isinstance(e, ast.IfExp):
+            self._truth(unit, e.body, guard)
+            self._truth(unit, e.orelse, guard)
+        elif isinstance(e, (ast.Compare, ast.Constant)):
+            pass        # the operators themselves (==, <, in) are not described by these lists; `is` runs no code
+        else:
+            self._emit("truth", self.origin(unit, e), "", guard, unit, e)
+
+    def _walk(self, unit, n, guard):
+        if isinstance(n, (ast.If, ast.IfExp, ast.While, ast.Assert)):
+            self._truth(unit, n.test, guard)
+        elif isinstance(n, ast.comprehension):
+            for c in n.ifs:
+                self._truth(unit, c, guard)
+        elif isinstance(n, ast.UnaryOp) and isinstance(n.op, ast.Not):
+            self._truth(unit, n.operand, guard)
+        if isinstance(n, (ast.If, ast.IfExp)):
+            g = self.guard_of(unit, n.test)
+            self._walk(unit, n.test, guard)
+            body = n.body if isinstance(n.body, list) else [n.body]
+            orelse = n.orelse if isinstance(n.orelse, list) else [n.orelse]
+            for s in body:
+                self._walk(unit, s, g[0] if g and g[1] else guard)
+            for s in orelse:
+                self._walk(unit, s, g[0] if g and not g[1] else guard)
+            return
+        if isinstance(n, ast.BoolOp) and isinstance(n.op, ast.And):
+            cur = guard
+            for i, v in enumerate(n.values):
+                if i < len(n.values) - 1:
+                    self._truth(unit, v, cur)
+                self._walk(unit, v, cur)
+                g = self.guard_of(unit, v)
+                if g and g[1]:
+                    cur = g[0]      # the operands behind `type(G) is list and` are only evaluated under it
+            return
+        if isinstance(n, ast.BoolOp):
+            for v in n.values[:-1]:
+                self._truth(unit, v, guard)
+        if isinstance(n, ast.For):
+            self._emit("iter", self.origin(unit, n.iter), "", guard, unit, n.iter)
+        elif isinstance(n, ast_canon._COMPS):
+            for g in n.generators:
+                self._emit("iter", self.origin(unit, g.iter), "", guard, unit, g.iter)
+        elif isinstance(n, ast.YieldFrom):
+            self._emit("iter", self.origin(unit, n.value), "", guard, unit, n.value)
+        elif isinstance(n, ast.Call):
+            self._call(unit, n, guard)
+        for c in ast.iter_child_nodes(n):
+            self._walk(unit, c, guard)
+
+    def _call(self, unit, n, guard):
+        if any(isinstance(a, ast.Starred) for a in n.args) or any(k.arg is None for k in n.keywords):
+            raise ExtractError(f"{unit.name}: call with * / ** arguments")
+        r = self.callee_unit(unit, n)
+        if r is not None:
+            # the helper's body runs under the guard of this call; the guarded object is known inside the helper
+            # when it is passed as an argument
+            u, recv = r
+            ident = None
+            if guard[0]:
+                ps = [p for p, e in ast_canon._bind_args(u.fn, n, recv) if self._same(unit, e, guard)]
+                if len(ps) == 1:
+                    ident = (u, frozenset([Def("param", u, ps[0])]))
+            self._visit(u, (guard[0], guard[1], ident))
+            return
+        st = self.mod.static(unit, n.func)
+        if st is not None:
+            ons = self.origin(unit, n.args[0]) if n.args else ("",)
+            arg = self._static_arg(unit, n.args[1]) if st in ARG_OPS and len(n.args) >= 2 else ""
+            self._emit(st, ons, arg, guard, unit, n.args[0] if n.args else None)
+        elif isinstance(n.func, ast.Attribute):
+            self._emit("." + n.func.attr, self.origin(unit, n.func.value), "", guard, unit, n.func.value)
+        else:
+            self._emit("()", self.origin(unit, n.func), "", guard, unit, n.func)
+
+
+def _coq_prim(p):
+    return "(" + ", ".join(_cs(x) for x in p) + ")"
 
 
 def render():
-    ty = _parse("monkeytype/typing.py")
-    tr = _parse("monkeytype/tracing.py")
-    gt = prims_of(ty, "get_type", ["obj"])
-    # get_dict_type's operations on `dct` are protected by the exact-type guard of its call site: they inherit the
-    # guard `dict` only if EVERY call of get_dict_type sits under `typ is dict`; otherwise they are emitted unguarded
-    # (and the hook-freedom theorem fails)
-    sites = [p for p in gt if p.startswith("get_dict_type")]
-    guarded = bool(sites) and all(p == "get_dict_type@dict" for p in sites)
-    gd = prims_of(ty, "get_dict_type", ["dct"], default_guard="dict" if guarded else None)
-    lookup = []
-    for fn in ("get_func", "get_func_in_mro", "_has_code", "get_previous_frames", "get_locals_from_previous_frames"):
-        lookup += [f"{fn}:{p}" for p in prims_of(tr, fn, [])]
-    cls = None
-    for node in ast.walk(tr):
-        if isinstance(node, ast.ClassDef) and node.name == "CallTracer":
-            cls = node
-    if cls is None:
-        raise ExtractError("CallTracer")
-    handle = []
-    for fn in ("handle_call", "handle_return", "_get_func"):
-        handle += [f"{fn}:{p}" for p in prims_of(cls, fn, [])]
+    universe = _universe()
+    for rel in ("monkeytype/typing.py", "monkeytype/tracing.py"):
+        if rel not in universe:
+            raise ExtractError(f"{rel} not found")
+    ty = Module("monkeytype/typing.py", universe)
+    tr = Module("monkeytype/tracing.py", universe)
+    gt = Analysis(ty, [(None, "get_type")])
+    lookup = Analysis(tr, [(None, "get_func")])
+    handle = Analysis(tr, [("CallTracer", "handle_call"), ("CallTracer", "handle_return")])
+    for a, what in ((gt, "get_type"), (lookup, "get_func"), (handle, "handlers")):
+        if not a.prims:
+            raise ExtractError(f"{what}: no primitive found")
 
     def sl(xs):
-        return "[" + "; ".join(_cs(x) for x in xs) + "]"
+        return "[" + ";\n   ".join(_coq_prim(x) for x in sorted(xs)) + "]"
     L = ["(* GENERATED by harness/extract_effects.py from /repo's current source. Do not edit. *)",
          "From Coq Require Import List String.", "Import ListNotations.", "Open Scope string_scope.", "",
-         f"Definition get_type_prims : list string := {sl(gt)}.",
-         f"Definition get_dict_type_prims : list string := {sl(gd)}.",
-         f"Definition lookup_prims : list string := {sl(lookup)}.",
-         f"Definition handler_prims : list string := {sl(handle)}.", ""]
+         "(* (op, on, arg, guard, gon): see harness/extract_effects.py *)",
+         f"Definition get_type_prims : list (string * string * string * string * string) :=\n  {sl(gt.prims)}.",
+         f"Definition lookup_prims : list (string * string * string * string * string) :=\n  {sl(lookup.prims)}.",
+         f"Definition handler_prims : list (string * string * string * string * string) :=\n  {sl(handle.prims)}.", ""]
     return "\n".join(L)
 
 
@@ -120,7 +856,8 @@ def regenerate():
     path = os.path.join(common.COQ, "Gen", "EffectsConstants.v")
     try:
         text = render()
-    except (ExtractError, SyntaxError, OSError, AttributeError, KeyError, IndexError, TypeError) as e:
+    except (ExtractError, SyntaxError, OSError, AttributeError, KeyError, IndexError, TypeError, ValueError,
+            RecursionError) as e:
         # keep the previously generated file: the proof status is reported as broken by the caller, but the
         # correspondence harness can still be built (against the last understood model) to search for a failing input
         return False, f"{type(e).__name__}: {e}"
